@@ -292,11 +292,18 @@ def boundary_stream(tier, stats, out_probs, known_hits):
             if len(docs) > cap:
                 # keep every variant carrying an extreme number (nan, infinities, integers of 30+ digits), sample the rest
                 def extreme(d):
-                    try:
-                        t = json.dumps(d)
-                    except (TypeError, ValueError):
+                    # a number that is not finite or beyond the 32-bit integer range, anywhere in the document
+                    if isinstance(d, bool):
                         return False
-                    return 'NaN' in t or 'Infinity' in t or re.search(r'\d{30}', t) is not None
+                    if isinstance(d, float):
+                        return d != d or abs(d) >= 2 ** 31
+                    if isinstance(d, int):
+                        return abs(d) >= 2 ** 31
+                    if isinstance(d, dict):
+                        return any(extreme(x) for x in d.values())
+                    if isinstance(d, (list, tuple)):
+                        return any(extreme(x) for x in d)
+                    return False
                 prio = [d for d in docs if extreme(d)]
                 rest = [d for d in docs if not extreme(d)]
                 docs = prio + random.Random(len(docs)).sample(rest, min(len(rest), cap))
@@ -451,12 +458,15 @@ def run(pid, tier, out):
         corr_error = (corr_error or '') + ' Model/Json.v or Gen/GenSchemas.v did not build'
     # (5) the decoders of Model/Decode.v against the bodies the harness sends, and the schema each handler really uses at
     #     each minor version (learnt from the running code) against Decode.schema_of_*
-    dn, ddis, dkinds, sc_n, sc_err = 0, [], {}, 0, None
+    dn, ddis, dkinds, sc_n, sc_err, re_n = 0, [], {}, 0, None, 0
     if common.vo_fresh('Model/Decode.v'):
         try:
             from harness import decode as decode_mod
             dn, ddis, dkinds = decode_mod.decode_stream(seed + 1517, 8 if tier == 'quick' else 120, 30, 'C15_%s' % tier)
             sc_n, sc_err = decode_mod.schema_choice('C15_%s' % tier)
+            re_n, re_probs = decode_mod.ratio_edges('C15_%s' % tier)
+            if re_probs:
+                sc_err = ((sc_err + '; ') if sc_err else '') + '; '.join(re_probs[:4])
         except Exception as exc:      # noqa
             corr_error = (corr_error or '') + ' decode stream: %s' % str(exc)[-600:]
         if sc_err:
@@ -543,7 +553,8 @@ def run(pid, tier, out):
            'parser_builtin_table_discrepancies': pstats.get('table_discrepancies'),
            'schema_documents': sn_cases, 'schema_disagreements': len(sdis), 'schema_stats': sstats,
            'decoded_bodies': dn, 'decode_disagreements': len(ddis), 'decoded_by_kind': dkinds,
-           'schema_choice_facts': sc_n, 'schema_choice_error': sc_err}
+           'schema_choice_facts': sc_n, 'schema_choice_error': sc_err,
+           'allocation_ratio_edges': re_n}
     common.write_evidence('C15', tier, 'proof', cov, t.s(), len(out.violations),
                           assumptions=['SQLite as the database', 'requests are delivered through webob (inputs webob cannot build are skipped)',
                                        'stored state = the nine core tables (project/user/consumer-type name rows excluded, as in C04)'])
